@@ -2,8 +2,11 @@ package props
 
 import (
 	"fmt"
+	"runtime"
 	"sort"
 	"strings"
+	"sync"
+	"time"
 
 	"verifharness/core"
 	"verifharness/world"
@@ -24,8 +27,8 @@ func (c10) Assumptions() []string {
 		"Go map iteration in Meta.GetAllProperties / applyDefinitionRegistryPostProcessors and the goroutine schedule of the scan phase are sampled by the repeated starts, not controlled",
 	}
 }
-func (c10) popCount(tier string) int      { return tierN(tier, 700, 15000) }
-func (c10) cycCount(tier string) int      { return tierN(tier, 300, 6000) }
+func (c10) popCount(tier string) int      { return tierN(tier, 700, 30000) }
+func (c10) cycCount(tier string) int      { return tierN(tier, 300, 12000) }
 func (p c10) NumCases(tier string) int    { return p.popCount(tier) + p.cycCount(tier) }
 func (c10) MinNontrivial(tier string) int { return tierN(tier, 200, 3000) }
 
@@ -95,6 +98,31 @@ func (p c10) Run(c *core.Ctx) {
 			resetHolder(h)
 		}
 		opt := world.Options{Extra: append([]any{}, holders...)}
+		{
+			// perturb the schedule of the parallel scan phase in every third run: a harness scanner that yields /
+			// sleeps per component (the scanner itself is registered in every run: same population)
+			delays := map[string]int{}
+			var dmu sync.Mutex
+			perturb := o%3 == 1
+			opt.Extra = append(opt.Extra, &world.FaultScanner{Nm: "verif.yieldscanner", FailFor: map[string]bool{}, Gate: func(name string, _ bool) {
+				if !perturb {
+					return
+				}
+				dmu.Lock()
+				d, ok := delays[name]
+				if !ok {
+					d = int(c.Rng.Int31n(4))
+					delays[name] = d
+				}
+				dmu.Unlock()
+				switch d {
+				case 1:
+					runtime.Gosched()
+				case 2:
+					time.Sleep(time.Duration(20+len(name)) * time.Microsecond)
+				}
+			}})
+		}
 		if plan != nil {
 			opt.Extra = append(opt.Extra, world.NewSubstituter(plan))
 		}
